@@ -231,7 +231,7 @@ func runC05(r *core.Run, tier string) {
 	if tier == "thorough" {
 		nGen, nSpecial, nNative, nShuffle = 500, 75, 25, 24
 	}
-	r.Rule("a case is one (input, execution) pair: each input (the 12 self-hosted sources in one invocation, every listed sample, generated programs, and programs built to put >= 2 entries in every dictionary fc iterates: records with identical field-name sets with/without Rec. prefix, unions with exhaustive / default / non-exhaustive matches, package_info blocks with many and overlapping entries, long chains of inference variables, and constraint-shape functions over unannotated parameters, ill-typed ones included) is transpiled by fresh fc processes under Go's native map order (once in a directory where the output files already exist with other, longer content) and under the hook-H1 orders asc, desc, rot:1..3 and seeded shuffles; all executions of one input must agree on every output file's bytes and on accept/reject; the H1 log is the evidence that order-sensitive code was reached; non-trivial = execution under a controlled order; distinct by (input, order)")
+	r.Rule("a case is one (input, execution) pair: each input (the 12 self-hosted sources in one invocation, every listed sample, generated programs, the same generated programs followed in the invocation by a second file that is rejected (unknown name, ill-typed, unbalanced, unknown type), and programs built to put >= 2 entries in every dictionary fc iterates: records with identical field-name sets with/without Rec. prefix, unions with exhaustive / default / non-exhaustive matches, package_info blocks with many and overlapping entries, long chains of inference variables, and constraint-shape functions over unannotated parameters, ill-typed ones included) is transpiled by fresh fc processes under Go's native map order (once in a directory where the output files already exist with other, longer content) and under the hook-H1 orders asc, desc, rot:1..3 and seeded shuffles; all executions of one input must agree on every output file's bytes and on accept/reject; the H1 log is the evidence that order-sensitive code was reached; non-trivial = execution under a controlled order; distinct by (input, order)")
 	r.Assume("every order the hook produces is one Go's map iteration may produce", "diagnostic text is not part of the statement (which uncovered case is named may vary)")
 	var inputs []c05Input
 	// self-hosted sources
@@ -251,6 +251,20 @@ func runC05(r *core.Run, tier string) {
 	gen, _, _ := genCases(r.SeedV, "c05", fo.ProfileC01, nGen, 0)
 	for _, c := range gen {
 		inputs = append(inputs, c05Input{id: "generated/" + c.key, kind: "generated", files: map[string]string{"x.fo": c.src}, args: []string{"x.fo"}})
+	}
+	// one invocation over two files of which the first is accepted and the second rejected: what is
+	// left of the first file's output (and the exit status) must be the same in every process
+	for i, c := range gen {
+		if i >= 40 {
+			break
+		}
+		bad := []string{
+			"package main\n\nlet zzBad () =\n  zzUnknown + 1\n",
+			"package main\n\nlet zzBad (a:int) =\n  a + \"s\"\n",
+			"package main\n\nlet zzBad () =\n  (1\n",
+			"package main\n\ntype ZzR = {ZzF: ZzMissing}\n",
+		}[i%4]
+		inputs = append(inputs, c05Input{id: "accepted-then-rejected/" + c.key, kind: "accepted-then-rejected", files: map[string]string{"a.fo": c.src, "b.fo": bad}, args: []string{"a.fo", "b.fo"}})
 	}
 	for k := 0; k < nSpecial; k++ {
 		inputs = append(inputs, c05Special(core.NewRand(r.SeedV, fmt.Sprintf("c05s/%d", k)), k)...)
